@@ -314,6 +314,11 @@ class Impl:
             op(("bgfilter", flag), lambda: self.graph(case, bg.filter(sel, filter_edges=flag)))
             op(("rfilter", flag), lambda: [self.record(case, e.filter(sel, filter_connections=flag)) for e in eps])
             op(("xfilter", flag), lambda: [self.record(case, e) for e in ex.filter(sel, filter_connections=flag).episodes])
+        # the objects the operations above were called on are unchanged (an episode extracted / a graph filtered from an object does not alter it)
+        op("to_graph_after", lambda: [self.graph(case, g) for g in gs])
+        op("stack_after", lambda: self.graph(case, bg))
+        op("get_after", lambda: [self.graph(case, bg[i]) for i in range(len(eps))])
+        op("records_after", lambda: [self.graph(case, e.to_graph()) for e in eps])
         return o
 
 
@@ -405,6 +410,17 @@ def compare(chk, case, o, mo, feats):
         if isinstance(v, tuple) and len(v) == 2 and v[0] == "RAISED":
             chk.violation(sig + "-raises", f"{key}: rex raised {v[1]} on a well-formed input", c); return True
         return False
+    # --- operations do not alter the object they are called on
+    for before, after, what in (("to_graph", "to_graph_after", "the per-episode graphs"), ("stack", "stack_after", "the stacked graph"),
+                                ("get", "get_after", "the episodes extracted from the stack"), ("to_graph", "records_after", "the episode records")):
+        if isinstance(o.get(before), tuple) or isinstance(o.get(after), tuple) and o[after][0] == "RAISED" and not isinstance(o.get(before), tuple):
+            if not isinstance(o.get(before), tuple):
+                chk.violation("operation-alters-its-object", f"after filtering / indexing / converting, {what} can no longer be read: {o[after][1]}", c)
+            continue
+        if o.get(before) != o.get(after):
+            chk.violation("operation-alters-its-object", f"after filtering / indexing / converting, {what} differ from what they were before "
+                          f"(nodes selected by the filters: {case['sel']})", dict(c, before=str(o[before])[:400], after=str(o[after])[:400]))
+            break
     # --- to_graph
     if not raised("to_graph", "to-graph") and o["to_graph"] != m_gs:
         chk.violation("to-graph-differs", "EpisodeRecord.to_graph differs from the model (vertices = steps' seq/ts_start/ts_end, edges "
